@@ -243,7 +243,12 @@ impl SDJWTVerifier {
 
         self.duplicate_hash_check = Vec::new();
         let claims: Value = self.sd_jwt_payload.clone().into_iter().collect();
-        self.unpack_disclosed_claims(&claims)
+        let mut claims = self.unpack_disclosed_claims(&claims)?;
+        // _sd_alg is only meaningful (and only removed) at the top level of the payload
+        if let Some(claims) = claims.as_object_mut() {
+            claims.shift_remove(DIGEST_ALG_KEY);
+        }
+        Ok(claims)
     }
 
     fn unpack_disclosed_claims(&mut self, sd_jwt_claims: &Value) -> Result<Value> {
@@ -292,7 +297,7 @@ impl SDJWTVerifier {
         let mut disclosed_claims: Map<String, Value> = serde_json::Map::new();
 
         for (key, value) in nested_sd_jwt_claims {
-            if key != SD_DIGESTS_KEY && key != DIGEST_ALG_KEY {
+            if key != SD_DIGESTS_KEY {
                 disclosed_claims.insert(key.to_owned(), self.unpack_disclosed_claims(value)?);
             }
         }
@@ -328,10 +333,22 @@ impl SDJWTVerifier {
                         .ok_or(Error::InvalidArrayDisclosureObject(
                             value_for_digest.to_string(),
                         ))?;
+                if disclosure.len() != 3 {
+                    return Err(Error::InvalidDisclosure(format!(
+                        "Disclosure of an object property must have three elements: {}",
+                        value_for_digest
+                    )));
+                }
                 let key = disclosure[1]
                     .as_str()
                     .ok_or(Error::ConversionError("str".to_string()))?
                     .to_owned();
+                if key == SD_DIGESTS_KEY || key == SD_LIST_PREFIX {
+                    return Err(Error::InvalidDisclosure(format!(
+                        "Disclosed claim name must not be `{}`",
+                        key
+                    )));
+                }
                 let value = disclosure[2].clone();
                 if pre_output.contains_key(&key) {
                     return Err(Error::DuplicateKeyError(key.to_string()));
@@ -367,6 +384,12 @@ impl SDJWTVerifier {
                     .ok_or(Error::InvalidArrayDisclosureObject(
                         value_for_digest.to_string(),
                     ))?;
+            if disclosure.len() != 2 {
+                return Err(Error::InvalidDisclosure(format!(
+                    "Disclosure of an array element must have two elements: {}",
+                    value_for_digest
+                )));
+            }
 
             let value = disclosure[1].clone();
             let unpacked_value = self.unpack_disclosed_claims(&value)?;
